@@ -188,11 +188,11 @@ var defaultOpaque = []string{
 	"crypto/tls", "github.com/quic-go/", "gopkg.in/yaml.v2",
 }
 
-var opaqueExceptions = []string{"net/netip", "net/url", "internal/bytealg", "internal/stringslite", "internal/byteorder", "internal/itoa", "internal/godebug", "crypto/subtle"}
+var opaqueExceptions = []string{"google.golang.org/protobuf/types/known/", "net/netip", "net/url", "internal/bytealg", "internal/stringslite", "internal/byteorder", "internal/itoa", "internal/godebug", "crypto/subtle"}
 
 func (e *Engine) opaque(path string) bool {
 	for _, x := range opaqueExceptions {
-		if path == x {
+		if path == x || (strings.HasSuffix(x, "/") && strings.HasPrefix(path, x)) {
 			return false
 		}
 	}
